@@ -31,6 +31,39 @@ def _load_case(path):
     return data
 
 
+def run_fuzz_campaigns(check, cid, seed, procs, runs, st):
+    """`procs` independent atheris/libFuzzer campaigns (ppv.fuzz) over the check's Hypothesis strategy"""
+    import subprocess
+    import tempfile
+    tmp = tempfile.mkdtemp(prefix='ppv-fuzzstats-')
+    jobs = []
+    for i in range(procs):
+        stats = os.path.join(tmp, 'stats%d.json' % i)
+        cmd = [sys.executable, '-m', 'ppv.fuzz', cid, '--runs', str(runs), '--seed', str(seed * 1000 + i + 1), '--stats', stats]
+        jobs.append((stats, subprocess.Popen(cmd, cwd=core.VERIF_DIR, stdout=subprocess.DEVNULL, stderr=subprocess.DEVNULL)))
+    total = {'campaigns': procs, 'runs_per_campaign': runs, 'executions': 0, 'valid': 0, 'nontrivial': 0, 'violations': 0,
+             'status': 'ok'}
+    for stats, proc in jobs:
+        rc = proc.wait()
+        if rc == 3:
+            total['status'] = 'atheris not available - skipped'
+            continue
+        try:
+            with open(stats) as f:
+                s = json.load(f)
+        except (OSError, ValueError):
+            continue
+        for k in ('executions', 'valid', 'nontrivial', 'violations'):
+            total[k] += s.get(k, 0)
+        if s.get('replay') and os.path.exists(s['replay']):
+            case = _load_case(s['replay'])
+            res = core.safe_oracle(check, case)
+            st.record(case, res, 'coverage-guided')
+    st.evaluations += total['valid']
+    st.phase['coverage-guided'] = st.phase.get('coverage-guided', 0) + total['valid']
+    return total
+
+
 def main(argv=None):
     ap = argparse.ArgumentParser()
     ap.add_argument('id')
@@ -126,6 +159,14 @@ def main(argv=None):
                 st.merge(payload)
             else:
                 harness_errors.append(payload)
+
+    # 5. coverage-guided complement (thorough tier of the checks that ask for it) -------------------------
+    fuzz_cfg = getattr(check, 'FUZZ', None)
+    if not harness_errors and fuzz_cfg and args.tier == 'thorough' and os.environ.get('PPV_NO_FUZZ') != '1':
+        try:
+            extra['coverage_guided'] = run_fuzz_campaigns(check, cid, seed, args.procs, int(fuzz_cfg['runs'] * args.scale), st)
+        except core.HarnessError as e:
+            harness_errors.append(str(e))
 
     # collect violations, dedupe by code keeping smallest case
     best = {}
